@@ -121,6 +121,10 @@ func init() {
 	Checks["C12"] = &CheckDef{Prop: "C12", Rule: seqRule,
 		Technique: "explicit-state model checking of the real code: BFS with the kernel's mark list (/proc/self/fdinfo) and the library tables compared with the reference model in every quiescent state; fixed point = all cycles",
 		BFS: func(tier string) []*BFSDef {
+			if tier != "thorough" {
+				// C09's search (to its fixed point) is part of the thorough tier only
+				return []*BFSDef{bfsC12(tier), bfsC04core(tier), bfsRec(tier)}
+			}
 			return []*BFSDef{bfsC12(tier), bfsC09(tier), bfsC04core(tier), bfsRec(tier)}
 		},
 		Jobs:   func(tier string) []Job { return append(burst4Jobs(tier), c12OpsJobs(tier)...) },
